@@ -295,6 +295,28 @@ func genRegexp(rng *rand.Rand, pool []string) (expr, example string) {
 	}
 }
 
+// fillRule gives r a fresh pattern of type typ related to the pool of rs.
+func fillRule(rng *rand.Rand, rs *ruleSet, r *rule, typ string) {
+	r.Typ = typ
+	base := rs.Pool[rng.Intn(len(rs.Pool))]
+	switch r.Typ {
+	case tFull, tDomain:
+		p := deriveRule(rng, base)
+		if !validName(p) {
+			p = base
+		}
+		r.Pat = spell(rng, p, 45)
+	case tKeyword:
+		k := genKeyword(rng, rs.Pool)
+		r.Pat = k
+		if rng.Intn(3) == 0 {
+			r.Pat = mixCase(rng, k)
+		}
+	case tRegexp:
+		r.Pat, r.Ex = genRegexp(rng, rs.Pool)
+	}
+}
+
 func genRuleSet(seed int64) *ruleSet {
 	rng := rand.New(rand.NewSource(seed))
 	rs := &ruleSet{Seed: seed}
@@ -326,24 +348,7 @@ func genRuleSet(seed int64) *ruleSet {
 			rs.Rules = append(rs.Rules, r)
 			continue
 		}
-		r.Typ = prof.pick(rng)
-		base := rs.Pool[rng.Intn(len(rs.Pool))]
-		switch r.Typ {
-		case tFull, tDomain:
-			p := deriveRule(rng, base)
-			if !validName(p) {
-				p = base
-			}
-			r.Pat = spell(rng, p, 45)
-		case tKeyword:
-			k := genKeyword(rng, rs.Pool)
-			r.Pat = k
-			if rng.Intn(3) == 0 {
-				r.Pat = mixCase(rng, k)
-			}
-		case tRegexp:
-			r.Pat, r.Ex = genRegexp(rng, rs.Pool)
-		}
+		fillRule(rng, rs, &r, prof.pick(rng))
 		rs.Rules = append(rs.Rules, r)
 	}
 	return rs
